@@ -190,8 +190,11 @@ static inline int readline_putchar(struct readline *rl, char c)
             // TODO: Возможно тут некорректно отрабатывается комбинация rnrnrnrn
             if ((rl->last == '\n' || rl->last == '\r') && rl->last != c)
             {
+                // second half of a CR LF / LF CR pair: swallowed once. Return
+                // here, the common exit would store it as the last character
+                // and the next line end would be taken for a pair half again.
                 rl->last = 0;
-                retcode = READLINE_NOTHING;
+                return READLINE_NOTHING;
             }
             else
             {
